@@ -1049,8 +1049,11 @@ func (e *Engine) opRes(c *cursor) *Violation {
 	}
 	res, ok, v := e.issue(op, why)
 	if v != nil {
-		if v.Class == "unexpected-panic" || v.Class == "no-panic" {
+		if v.Class == "unexpected-panic" {
 			v.Class = "resource"
+		}
+		if v.Class == "no-panic" {
+			v.Class = "resource-no-panic"
 		}
 		return v
 	}
